@@ -716,6 +716,13 @@ func runCallCase(c callCase, st *callStats) *fail {
 func (r *rig) walkCall(c callCase, recv p9.File, recvID int, what string, st *callStats) *fail {
 	names := strs(c.Names)
 	useGA := c.Method == "WalkGetAttr"
+	if c.Err != nil && c.Err.want() == 38 {
+		// ENOSYS from WalkGetAttr is the documented request to fall back to
+		// Walk + GetAttr, not a failure: inject another errno
+		e := *c.Err
+		e.Errno = 95
+		c.Err = &e
+	}
 	// script one step per name; intermediates must be directories
 	var qids []p9.QID
 	lastAttr := attrP(c.RAttr)
